@@ -94,14 +94,14 @@ Proof.
     destruct (batch_load_ranges pd budget (S f) t c un batch_limit nl) as [[[regs|e] c1] t1] eqn:Eb; [|discriminate].
     destruct (batch_load_ranges_ok _ _ _ _ _ _ _ _ _ Hne Hl Eb) as [infos [Hn [Hg [Hregs _]]]].
     destruct (rev regs) as [|lastr x] eqn:Er; [discriminate|].
-    destruct (rev_head_last regs lastr x (new_region (mkDesc 0 [] [] 0 0 [] (0, 0))) Er) as [Hlast _].
+    destruct (rev_head_last regs lastr x (new_region (mkDesc 0 [] [] 0 0 [] (0, 0) None)) Er) as [Hlast _].
     destruct (fold_append_inv cs0 regs m Hm) as [Hm1 Hout1].
     intros H. apply IH in H; [|apply ranges_after_key_wf; exact Hwf|pose proof (ranges_after_key_length un (r_end lastr)); lia|exact Hm1].
     destruct H as [H1 [H2 H3]]. split; [exact H1|]. split; [intros y Hy; apply H2, Hout1; left; exact Hy|].
     intros k Hk. destruct (regions_have_gap_sound un infos batch_limit Hwf Hg k Hk) as [Hc|[_ Hc]].
     + apply covered_map_new in Hc. rewrite <- Hregs in Hc. eapply covered_mono; [|exact Hc]. intros y Hy. apply H2, Hout1. right; exact Hy.
-    + specialize (Hc (mkDesc 0 [] [] 0 0 [] (0, 0))). destruct Hc as [Hc1 Hc2].
-      assert (Hend : r_end lastr = d_end (last infos (mkDesc 0 [] [] 0 0 [] (0, 0)))).
+    + specialize (Hc (mkDesc 0 [] [] 0 0 [] (0, 0) None)). destruct Hc as [Hc1 Hc2].
+      assert (Hend : r_end lastr = d_end (last infos (mkDesc 0 [] [] 0 0 [] (0, 0) None))).
       { rewrite <- Hlast, Hregs. apply last_map_new. exact Hn. }
       apply H3. apply ranges_after_key_keeps; [exact Hwf|rewrite Hend; exact Hc1|exact Hk|rewrite Hend; exact Hc2].
 Qed.
@@ -169,8 +169,8 @@ Proof.
     destruct (batch_load_ranges pd budget (S f) t c [(s1, e)] batch_limit true) as [[[regs|x] c1] t1] eqn:Eb; [|discriminate].
     destruct (batch_load_ranges_ok (S f) t c [(s1, e)] batch_limit true regs c1 t1 ltac:(discriminate) (fun _ => Hl) Eb) as [infos [Hn [Hg [Hregs _]]]].
     destruct (rev regs) as [|lastr y] eqn:Er; [discriminate|].
-    destruct (rev_head_last regs lastr y (new_region (mkDesc 0 [] [] 0 0 [] (0, 0))) Er) as [Hlast _].
-    assert (Hend : r_end lastr = d_end (last infos (mkDesc 0 [] [] 0 0 [] (0, 0)))).
+    destruct (rev_head_last regs lastr y (new_region (mkDesc 0 [] [] 0 0 [] (0, 0) None)) Er) as [Hlast _].
+    assert (Hend : r_end lastr = d_end (last infos (mkDesc 0 [] [] 0 0 [] (0, 0) None))).
     { rewrite <- Hlast, Hregs. apply last_map_new. exact Hn. }
     (* everything of [s0, e) below the end of the last loaded region is covered *)
     assert (Hcov : forall k, lex_leb s0 k = true -> (e = [] \/ lex_ltb k e = true) ->
